@@ -196,6 +196,18 @@ class Check:
             "violations_sample": [{k: (v[k] if k != "case" else {kk: vv for kk, vv in (v[k] or {}).items() if kk != "session"}) for k in v if k not in ("session",)} for v in self.violations[:5]],
         }
         cov.update(self.extra)
+        # non-vacuity against the recorded baseline of the unchanged tree: a check whose preconditions silently stopped
+        # holding (so that it evaluates far fewer clauses than it used to) has not decided anything
+        try:
+            base = json.load(open(os.path.join(VERIF, "baselines.json"))).get(f"{self.prop}:{self.tier}")
+        except Exception:
+            base = None
+        if base and SEED == 1 and not self.violations:
+            for key, have in (("distinct_nontrivial", self.nontrivial), ("traces_validated_against_impl", self.traces_validated)):
+                want = base.get(key, 0)
+                if want >= 20 and have < 0.5 * want:
+                    self.tool_errors.append(f"non-vacuity: {key} = {have}, the unchanged tree gives {want} (baselines.json): most of the check's clauses were not evaluated")
+            cov["baseline"] = base
         if explanation:
             cov["explanation"] = explanation
         nviol = self.extra.get("violations_total", len(self.violations))
